@@ -54,7 +54,7 @@ pub fn validate_object_path(op: &str) -> Result<()> {
         // check path components
         op.split('/')
             .find_map(|elem| {
-                if elem.is_empty() || !elem.chars().all(|c| c.is_alphanumeric() || c == '_') {
+                if elem.is_empty() || !elem.chars().all(|c| c.is_ascii_alphanumeric() || c == '_') {
                     Some(Error::InvalidObjectPath)
                 } else {
                     None
@@ -81,7 +81,13 @@ fn test_validate_object_path() {
     assert!(validate_object_path("///baz_bar").is_err());
 }
 
+/// The maximum length of interface-, error-, bus- and membernames
+const MAX_NAME_LEN: usize = 255;
+
 pub fn validate_interface(int: &str) -> Result<()> {
+    if int.len() > MAX_NAME_LEN {
+        return Err(Error::InvalidInterface);
+    }
     let split = int.split('.');
     let mut cnt = 0;
     for (i, element) in split.enumerate() {
@@ -89,11 +95,13 @@ pub fn validate_interface(int: &str) -> Result<()> {
             .chars()
             .next()
             .ok_or(Error::InvalidInterface)?
-            .is_numeric()
+            .is_ascii_digit()
         {
             return Err(Error::InvalidInterface);
         }
-        let alphanum_or_underscore = element.chars().all(|c| c.is_alphanumeric() || c == '_');
+        let alphanum_or_underscore = element
+            .chars()
+            .all(|c| c.is_ascii_alphanumeric() || c == '_');
         if !alphanum_or_underscore {
             return Err(Error::InvalidInterface);
         }
@@ -112,6 +120,9 @@ pub fn validate_errorname(en: &str) -> Result<()> {
 }
 
 pub fn validate_busname(bn: &str) -> Result<()> {
+    if bn.len() > MAX_NAME_LEN {
+        return Err(Error::InvalidBusname);
+    }
     let (unique, bus_name) = if let Some(unique_name) = bn.strip_prefix(':') {
         (true, unique_name)
     } else {
@@ -125,14 +136,14 @@ pub fn validate_busname(bn: &str) -> Result<()> {
             .chars()
             .next()
             .ok_or(Error::InvalidBusname)?
-            .is_numeric()
+            .is_ascii_digit()
             && !unique
         {
             return Err(Error::InvalidBusname);
         }
         let alphanum_or_underscore_or_dash = element
             .chars()
-            .all(|c| c.is_alphanumeric() || c == '_' || c == '-');
+            .all(|c| c.is_ascii_alphanumeric() || c == '_' || c == '-');
         if !alphanum_or_underscore_or_dash {
             return Err(Error::InvalidBusname);
         }
@@ -146,11 +157,14 @@ pub fn validate_busname(bn: &str) -> Result<()> {
 }
 
 pub fn validate_membername(mem: &str) -> Result<()> {
-    if mem.is_empty() {
+    if mem.is_empty() || mem.len() > MAX_NAME_LEN {
+        return Err(Error::InvalidMembername);
+    }
+    if mem.starts_with(|c: char| c.is_ascii_digit()) {
         return Err(Error::InvalidMembername);
     }
 
-    let alphanum_or_underscore = mem.chars().all(|c| c.is_alphanumeric() || c == '_');
+    let alphanum_or_underscore = mem.chars().all(|c| c.is_ascii_alphanumeric() || c == '_');
     if !alphanum_or_underscore {
         return Err(Error::InvalidMembername);
     }
